@@ -193,7 +193,7 @@ def y_scripts(seed, count):
                     ln[t], stt[t] = ln[w], "live"
                 elif op in ("MoveConstruct", "MoveAssign"):
                     ln[t], stt[t] = ln[w], "live"
-                    ln[w], stt[w] = 0, "moved"
+                    ln[w], stt[w] = 0, ("moved" if op == "MoveAssign" else "live")
                 elif op == "Swap":
                     ln["A"], ln["B"] = ln["B"], ln["A"]
                 else:
